@@ -329,8 +329,6 @@ class TableWorld(World):
         if name in ('np.random.default_rng',):
             st = st.copy()
             return [Result(st, st.alloc(Obj('RNG', {})))]
-        if name == 'set' and len(args) == 1 and args[0].kind == 'ref':
-            return [Result(st, args[0])]
         if name == 'scipy.sparse.isspmatrix':
             v = args[0]
             return [Result(st, VBool(v.kind == 'ref' and isinstance(st.node(v), Obj) and st.node(v).cls == 'SP'))]
@@ -1298,3 +1296,48 @@ contract(F, 'Table.remove_empty', tier='A', props=['C08', 'C07'],
               ("inplace and axis != 'observation'", 'self._sample_ids'), ("inplace and axis != 'observation'", 'self._sample_metadata'),
               ("inplace and axis != 'sample'", 'self._observation_ids'), ("inplace and axis != 'sample'", 'self._observation_metadata'),
               ("inplace", 'self._sample_index'), ("inplace", 'self._obs_index')])
+
+
+# ---- update_ids (C06: relabel only) ---------------------------------------------------------------------------------
+_OLD_IDS = "(old(self._sample_ids) if axis == 'sample' else old(self._observation_ids))"
+_NEW_IDS = "(result._sample_ids if axis == 'sample' else result._observation_ids)"
+_UNCHANGED = ("self._sample_ids is oldref(self._sample_ids) and self._observation_ids is oldref(self._observation_ids) "
+              "and self._data is oldref(self._data) and samecells(self._data, old(self._data.cell))")
+contract(F, 'Table.update_ids', tier='A', props=['C06', 'C07'],
+    types={'self': 'Obj:Table', 'id_map': 'Dict[Str,Str]', 'axis': 'Str', 'strict': 'Bool', 'inplace': 'Bool'},
+    requires=WF_T,
+    returns='Alias[self]|Obj:Table',
+    ensures=[
+        "(result is self) == inplace",
+        # every id of the axis is replaced by what the map says for it, or kept when the map is silent (never truncated)
+        "len(%s) == len(%s)" % (_NEW_IDS, _OLD_IDS),
+        "all(%s[k] == (id_map[%s[k]] if %s[k] in id_map else %s[k]) for k in range(len(%s)))"
+        % (_NEW_IDS, _OLD_IDS, _OLD_IDS, _OLD_IDS, _OLD_IDS),
+        "implies(strict, all(%s[k] in id_map for k in range(len(%s))))" % (_OLD_IDS, _OLD_IDS),
+        # nothing else moves: the other axis, the metadata of both axes and every cell
+        "implies(axis == 'sample', same_seq(result._observation_ids, old(self._observation_ids)))",
+        "implies(axis == 'observation', same_seq(result._sample_ids, old(self._sample_ids)))",
+        "same_seq(result._sample_metadata, old(self._sample_metadata)) and same_seq(result._observation_metadata, old(self._observation_metadata))",
+        "samecells(result._data, old(self._data.cell)) and result._data.shape == old(self._data.shape)",
+        "implies(inplace, result._data is oldref(self._data))",
+        "implies(not inplace, %s)" % _UNCHANGED,
+        # the lookups describe the new ids
+        "is_index_of(result._sample_index, result._sample_ids) and is_index_of(result._obs_index, result._observation_ids)",
+        # an in-place update never leaves duplicates behind
+        "implies(inplace and axis == 'sample', all(implies(p < q, result._sample_ids[p] != result._sample_ids[q]) "
+        "        for p in range(len(result._sample_ids)) for q in range(len(result._sample_ids))))",
+        "implies(inplace and axis == 'observation', all(implies(p < q, result._observation_ids[p] != result._observation_ids[q]) "
+        "        for p in range(len(result._observation_ids)) for q in range(len(result._observation_ids))))",
+    ],
+    internal=["kcount('errcheck') >= 1 and karg('errcheck', 0) is result"],
+    raises={'UnknownAxisError': ["not (%s)" % AX, _UNCHANGED],
+            'ValueError': [_UNCHANGED],
+            # a refused update leaves the table as it was
+            'TableException': [_UNCHANGED]},
+    modifies=[("inplace and axis == 'sample'", 'self._sample_ids'), ("inplace and axis == 'observation'", 'self._observation_ids'),
+              ("inplace", 'self._sample_index'), ("inplace", 'self._obs_index')],
+    loops={0: dict(header="for idx, old_id in enumerate(self.ids(axis=axis))", invariant=[
+        "len(updated_ids) == len(%s)" % _OLD_IDS,
+        "all(updated_ids[k] == (id_map[%s[k]] if %s[k] in id_map else %s[k]) for k in range(0, __i0))" % ((_OLD_IDS,) * 3),
+        "implies(strict, all(%s[k] in id_map for k in range(0, __i0)))" % _OLD_IDS,
+    ])})
